@@ -9,6 +9,7 @@ import random
 
 from .. import cases, layout, oracles, probes
 from .. import refmodel as R
+from .. import trace as TR
 from . import _strict
 
 PROPERTY = "C04"
@@ -19,7 +20,7 @@ RULE = (
     "bit and a random value; boundary values inside the set must be accepted, values outside must raise "
     "ValueConstraintViolatedError for exactly that field (path, declared type, integer, allowed set probed at every pinned "
     "interval end point +-1) with the events of all earlier fields and none for the offending one; thorough: also two bad "
-    "leaves at once (the first must be reported); successful responses decoded with reserved command codes (no layout): a value error naming the code, after events that are a prefix of the decode with the real code and account for every consumed byte; distinct = distinct (type/code, leaf path, perturbation) cases"
+    "leaves at once (the first must be reported); faults on .tag / .commandCode / .responseCode and every sixth other fault are also decoded through the hex and pcapng front-ends (same error, same number of events); successful responses decoded with reserved command codes (no layout): a value error naming the code, after events that are a prefix of the decode with the real code and account for every consumed byte; distinct = distinct (type/code, leaf path, perturbation) cases"
 )
 ASSUMPTIONS = ["pinned allowed sets; the allowed set of an error is compared by membership at the pinned interval end points +-1, not enumerated"]
 KINDS = oracles.VALUE_KINDS
@@ -76,6 +77,19 @@ def run_shard(shard, rec):
                 rec.count(f"perturb_{fc.fault.get('change', 'two')}")
                 if fc.fault.get("field") == ".commandCode" and kind in KINDS:
                     rec.count("fault_on_commandCode")
+                # the same faulted message through the front-ends (hex text, a capture): the verdict on a value does not depend
+                # on the container the bytes came in
+                if fc.t in ("Command", "Response") and (fc.fault.get("field") in (".tag", ".commandCode", ".responseCode") or rec.evaluations % 6 == 0):
+                    from . import c15
+
+                    n = rec.counters.get("front_end_runs", 0)
+                    fe = ("hex", "pcapng")[n % 2]
+                    cont = c15.hex_render(fc.d, rng)[0] if fe == "hex" else c15.pcap_render([fc.d], rng)[0]
+                    t2 = TR.run(fc.t, fc.d, strict=True, cc=fc.cc, enc=fc.enc, front=c15.front(fe), container=cont)
+                    rec.count("front_end_runs")
+                    key = lambda o: (o[0],) + ((o[1]["cls"], o[1].get("cpath"), o[1].get("value")) if o[0] == "constraint" else ())
+                    if key(t2.outcome) != key(t.outcome) or len(t2.events) != len(t.events):
+                        rec.violation("front-end", f"{fe}:{t.okind()}", f"{fc.short()}\nthrough the {fe} front-end: {key(t2.outcome)} after {len(t2.events)} events; decoded directly: {key(t.outcome)} after {len(t.events)} events", dict(fc.replay(), front=fe))
                 if kind in KINDS:
                     why = valid_set_mismatch(t, ref)
                     rec.count("allowed_sets_probed")
@@ -124,6 +138,8 @@ def finish(m, tier):
         inc.append("no case in which the reference expects a value error")
     if not m["counters"].get("valid_boundary_kept"):
         inc.append("no valid boundary value was kept")
+    if not m["counters"].get("front_end_runs"):
+        inc.append("no faulted message was decoded through a front-end")
     if not m["counters"].get("unknown_cc_responses"):
         inc.append("no successful response was decoded with a reserved command code")
     if not m["counters"].get("fault_on_commandCode"):
